@@ -433,16 +433,29 @@ Qed.
 Section RT.
 Variable nd : bool.
 
+Lemma dec_len_ok : forall lim fr d sz body post cur v, (forall x, lim x = swrap 32 x) ->
+  sz = Z.of_nat (length body) -> sz < 2 ^ 31 ->
+  d (S0 body) cur = Ok v (S0 []) ->
+  dec_len lim fr d (S0 (varint sz ++ body ++ post)) cur = Ok v (S0 post).
+Proof.
+  intros lim fr d sz body post cur v Hlim Hsz Hs Hd. unfold dec_len.
+  unfold S0 at 1. rewrite read_varint_ok by lia. rewrite Hlim.
+  replace (swrap 32 (u32 sz)) with sz.
+  - subst sz. apply with_limit_exact. exact Hd.
+  - unfold u32. symmetry. apply (swrap_mod_le 32 32); lia.
+Qed.
+Lemma packed_limit_swrap : forall x, packed_limit_of_length x = swrap 32 x.
+Proof. reflexivity. Qed.
+Lemma field_limit_swrap : forall x, field_limit_of_length x = swrap 32 x.
+Proof. reflexivity. Qed.
+
 Lemma dec_packed_ld : forall e d sz body post cur v, is_ld e = true ->
   sz = Z.of_nat (length body) -> sz < 2 ^ 31 ->
   d (S0 body) cur = Ok v (S0 []) ->
   dec_packed e d (S0 (packed e sz body ++ post)) cur = Ok v (S0 post).
 Proof.
   intros e d sz body post cur v Hld Hsz Hs Hd. unfold dec_packed, packed. rewrite Hld.
-  unfold S0 at 1. rewrite <- app_assoc, read_varint_ok by lia.
-  replace (swrap 32 (u32 sz)) with sz.
-  - subst sz. apply with_limit_exact. exact Hd.
-  - unfold u32. symmetry. apply (swrap_mod_le 32 32); lia.
+  rewrite <- app_assoc. apply dec_len_ok; auto.
 Qed.
 
 Lemma dec_packed_nld : forall e d sz body post cur v, is_ld e = false ->
@@ -657,12 +670,14 @@ Proof.
   rewrite (find_field_nth fs i num t 0 Hnd Hn). cbn [Nat.add]. rewrite Hcur.
   unfold dec_field. rewrite Hw, Z.eqb_refl. cbn [negb]. rewrite andb_false_r.
   fold (S0 (((if is_ld t then varint (ssize t x) else []) ++ encode t x) ++ rest)).
-  change ((if is_ld t then varint (ssize t x) else []) ++ encode t x) with (packed t (ssize t x) (encode t x)).
-  assert (Hd : dec_packed t (decode nd t) (S0 (packed t (ssize t x) (encode t x) ++ rest)) (dflt t)
+  assert (Hd : (if is_ld t
+                then dec_len field_limit_of_length field_len_fail_result (decode nd t)
+                       (S0 (((if is_ld t then varint (ssize t x) else []) ++ encode t x) ++ rest)) (dflt t)
+                else decode nd t (S0 (((if is_ld t then varint (ssize t x) else []) ++ encode t x) ++ rest)) (dflt t))
                = Ok (norm t x) (S0 rest)).
   { destruct (is_ld t) eqn:Hld.
-    - apply dec_packed_ld; auto.
-    - apply dec_packed_nld; auto. apply B; auto. apply nld_size_nonnull; auto. }
+    - rewrite <- app_assoc. apply dec_len_ok; auto.
+    - cbn [app]. apply B; auto. apply nld_size_nonnull; auto. }
   rewrite Hd. unfold shorter, S0. cbn [win].
   replace (length rest <? _)%nat with true. reflexivity.
   symmetry. apply Nat.ltb_lt. rewrite !app_length. pose proof (varint_nonempty (tag_of num t)).
@@ -856,11 +871,16 @@ Proof. vm_compute. reflexivity. Qed.
 Lemma se_unlimited_float_crash :
   parse false true (TVec (TS KF32)) (encode (TVec (TS KF32)) (VSeq [VInt 1065353216])) = Crash.
 Proof. vm_compute. reflexivity. Qed.
-(* eleven continuation bytes where a length prefix is expected: the element loop never ends *)
-Lemma se_terminates_refuted : parse false false (TVec TStr) (repeat 128 11) = Hang.
+(* since fix e367940: eleven continuation bytes where a length prefix is expected are a parse failure *)
+Lemma se_overlong_length_fails : parse false false (TVec TStr) (repeat 128 11) = Fail.
 Proof. vm_compute. reflexivity. Qed.
-Lemma se_terminates_refuted_nested :
-  parse false false (TAgg [(1, TVec TStr)]) ([10; 11] ++ repeat 255 11) = Hang.
+Lemma se_overlong_length_fails_nested :
+  parse false false (TAgg [(1, TVec TStr)]) ([10; 11] ++ repeat 255 11) = Fail.
+Proof. vm_compute. reflexivity. Qed.
+(* a vector of smart pointers to scalars (outside ty_ok, see se_roundtrip_refuted_null_scalar_ptr) under a limit
+   that lies beyond the end of a stream without enclosing limit still spins *)
+Lemma se_unlimited_scalar_ptr_vector_hangs :
+  parse false true (TAgg [(1, TVec (TPtr false (TS KI32)))]) [10; 5] = Hang.
 Proof. vm_compute. reflexivity. Qed.
 
 (* ---------- examples: aggregates, unknown fields, order, defaults (computed on the model) ---------- *)
